@@ -93,7 +93,7 @@ func init() {
 		"Structural agreement of decoder and encoder conventions: TABLE.keys (both halves read the shared key variables), FOLD.total (the decoder's snake-case folding replaces every hyphen, so it is idempotent: the names the encoder writes decode to themselves), PAIR.derived (lenAttrPrefix tracks attrPrefix), TABLE.partition (attribute / text / element partition of a map's keys is the same predicate in both scans), ESC.flow (every Map value reaches the output escaped unless xmlEscapeChars is known false), TABLE.escape (entity table, order, no unescaped early return), ORDER (sorted emission), WALK.arms (every list member and collected child is encoded), TAGS.protocol (path-sensitive typestate of the Map element encoder: on every path feasible for a decoder-shaped value the buffer writes follow start tag, attributes, close, content, end tag / self-close; start and end tag name the same parameter; no successful return leaves an open element), ROOT.single (each encoder passes exactly one call of the element encoder on every path that returns a document; the call on the receiver's single entry is guarded by len == 1), TAGS.content (on no path is the element completed while its text entry or scalar value — string, number or boolean, as float/bool casting produces — has not been written). Not decided: equality of the second decode with the first; well-formedness of names and of the sequence encoder's output."+levelNote,
 		nil,
 		ruleTagProtocol, func(p *Prog, r *Report) { ruleTagContent(p, r, "map") }, ruleTableKeys, ruleRootSingle,
-		ruleInflCover,
+		ruleInflCover, ruleTableNanInf,
 		func(p *Prog, r *Report) { ruleElemAlways(p, r, []string{"mxj.marshalMapToXmlIndent"}) },
 		func(p *Prog, r *Report) { ruleTextNonEmpty(p, r, []string{"mxj.xmlToMapParser"}) },
 		func(p *Prog, r *Report) { ruleCastOpaque(p, r, []string{"mxj.xmlToMapParser"}) },
@@ -111,7 +111,7 @@ func init() {
 			ruleOwnPrivate(p, r, []string{"mxj.Map.Xml", "mxj.Map.XmlIndent", "mxj.AnyXml", "mxj.AnyXmlIndent"})
 		},
 		func(p *Prog, r *Report) { ruleWalkArms(p, r, []string{"mxj.marshalMapToXmlIndent"}) },
-		ruleAnyXmlList, ruleAnyXmlNilOnly, ruleTablePartition, ruleEsc, ruleTableEscape,
+		ruleAnyXmlList, ruleAnyXmlNilOnly, ruleTablePartition, ruleEsc, ruleTableEscape, ruleValidCoupling,
 		func(p *Prog, r *Report) { ruleElemAlways(p, r, []string{"mxj.marshalMapToXmlIndent"}) },
 		func(p *Prog, r *Report) {
 			ruleErr(p, r, []string{"mxj.Map.Xml", "mxj.Map.XmlIndent", "mxj.AnyXml", "mxj.AnyXmlIndent"}, "Map encoders and AnyXml")
@@ -155,7 +155,10 @@ func init() {
 		func(p *Prog, r *Report) {
 			ruleWrapCompose(p, r, []wrapSpec{{"mxj.Map.Copy", []string{"mxj.Map.Json", "mxj.NewMapJson"}, false}})
 		},
-		ruleWrapWriter, ruleJsonListWrap, ruleJsonIdentity, ruleOptWriters, ruleJsonNoMarshal,
+		ruleWrapWriter, ruleJsonListWrap, ruleJsonListWrapAlways, ruleJsonIdentity, ruleOptWriters, ruleJsonNoMarshal,
+		func(p *Prog, r *Report) {
+			ruleFwdNames(p, r, func(n string) bool { return hasPrefixAny(n, "mxj.Map.Json", "mxj.Maps.Json") })
+		},
 		func(p *Prog, r *Report) {
 			ruleErr(p, r, concat(grpJsonEncode, []string{"mxj.NewMapJson", "mxj.NewMapJsonReader", "mxj.NewMapJsonReaderRaw"}), "JSON functions")
 		})
@@ -176,6 +179,7 @@ func init() {
 		func(p *Prog, r *Report) { ruleWalkProgress(p, r, []string{"mxj.valuesForKeyPath"}) },
 		func(p *Prog, r *Report) { ruleWalkCollect(p, r, []string{"mxj.valuesForKeyPath"}) },
 		func(p *Prog, r *Report) { ruleWalkNoEarlyExit(p, r, []string{"mxj.valuesForKeyPath"}) },
+		func(p *Prog, r *Report) { ruleResultOwnArray(p, r, []string{"mxj.valuesForKeyPath"}) },
 		rulePredLocal,
 		func(p *Prog, r *Report) {
 			ruleScanComplete(p, r, p.scopeFuncs(r, "SCAN.complete", []string{"mxj.Map.ValuesForPath"}))
@@ -244,6 +248,7 @@ func init() {
 		},
 		ruleWalkLeaf,
 		func(p *Prog, r *Report) { ruleLeafPath(p, r, "mxj.getLeafNodes") },
+		func(p *Prog, r *Report) { rulePairCount(p, r, []string{"mxj.Map.oldValuesForPath"}) },
 		func(p *Prog, r *Report) { rulePathVerbatim(p, r, "mxj.parsePath") },
 		func(p *Prog, r *Report) { ruleWalkNoEarlyExit(p, r, []string{"mxj.getLeafNodes", "mxj.valuesForKeyPath"}) },
 		func(p *Prog, r *Report) {
@@ -278,6 +283,7 @@ func init() {
 		func(p *Prog, r *Report) { ruleWalkNoEarlyExit(p, r, []string{"mxj.updateValuesForKeyPath", "mxj.updateValue"}) },
 		rulePredLocal, ruleOptWriters,
 		func(p *Prog, r *Report) { rulePathWhole(p, r, "mxj.Map.UpdateValuesForPath") },
+		func(p *Prog, r *Report) { ruleTypedValueUsed(p, r, "mxj.Map.UpdateValuesForPath") },
 		func(p *Prog, r *Report) { ruleWalkReentry(p, r, p.scopeFuncs(r, "WALK.reentry", []string{"mxj.Map.UpdateValuesForPath"})) },
 		func(p *Prog, r *Report) {
 			in := map[string]bool{}
@@ -312,7 +318,7 @@ func init() {
 		nil,
 		func(p *Prog, r *Report) { ruleEffectRecv(p, r, p.named("mxj.Map.NewMap"), "EFFECT.recv") },
 		func(p *Prog, r *Report) { ruleErr(p, r, []string{"mxj.Map.NewMap"}, "NewMap") },
-		ruleNewMapArgs,
+		ruleNewMapArgs, ruleCopyNonNil,
 		panicRules(grpProject))
 
 	register("C13",
@@ -327,6 +333,7 @@ func init() {
 		},
 		ruleIOTee, ruleJsonEscape, ruleDecoderConfig,
 		func(p *Prog, r *Report) { ruleJsonScanClosing(p, r, "mxj.getJson") },
+		func(p *Prog, r *Report) { ruleJsonScanEscape(p, r, "mxj.getJson") },
 		ruleJsonDecoderFor([]string{"mxj.NewMapJson", "mxj.NewMapJsonReader", "mxj.NewMapJsonReaderRaw", "mxj.HandleJsonReader", "mxj.HandleJsonReaderRaw", "mxj.NewMapsFromJsonFile", "mxj.NewMapsFromJsonFileRaw"}),
 		func(p *Prog, r *Report) {
 			ruleLoopHandler(p, r, []string{"mxj.HandleXmlReader", "mxj.HandleXmlReaderRaw", "mxj.HandleJsonReader", "mxj.HandleJsonReaderRaw"})
@@ -343,7 +350,7 @@ func init() {
 	register("C14",
 		"Structural clauses of casting: INFL.castflag (the cast flag reaches only cast() and the recursion, so structure cannot depend on it; every cast option is read only on the flag-true path; every return of cast is the identical input string or a successful strconv.Parse* of it), TABLE.naninf (with CastNanInf off all seven spellings strconv.ParseFloat accepts for NaN/Inf are excluded before its result can be returned), cast call-site coverage (attribute, text and simple values of both decoders pass through cast with the decoder's flag), OPT.writers (cast and the decoders write no package variable: what a decode returns depends on the document and the options in force, not on earlier decodes), CAST.opaque (the decoders never test a value of the node under construction for a scalar type: what cast made of a text cannot change the keys), CAST.input (the string handed to cast is computed from the current token only, never from a value read back from the node being built, which has already been cast). Not decided: that each leaf gets exactly the value its text denotes."+levelNote,
 		[]string{"strconv.ParseFloat documentation (accepted NaN/Inf spellings)"},
-		ruleInflCastFlag, ruleTableNanInf, ruleInflCover, ruleCastParsers, ruleOptWriters,
+		ruleInflCastFlag, ruleTableNanInf, ruleInflCover, ruleCastParsers, ruleOptWriters, ruleSeqCover, ruleSeqCastTag,
 		func(p *Prog, r *Report) { ruleCastInput(p, r, []string{"mxj.xmlToMapParser", "mxj.xmlSeqToMapParser"}) },
 		func(p *Prog, r *Report) { ruleCastOpaque(p, r, []string{"mxj.xmlToMapParser", "mxj.xmlSeqToMapParser"}) })
 
@@ -352,6 +359,7 @@ func init() {
 		nil,
 		panicRules(c15Roots()),
 		func(p *Prog, r *Report) { ruleWalkReentry(p, r, p.scopeFuncs(r, "WALK.reentry", c15Roots())) },
+		ruleJsonDecoderFor([]string{"mxj.NewMapJson", "mxj.NewMapJsonReader", "mxj.NewMapJsonReaderRaw", "mxj.HandleJsonReader", "mxj.HandleJsonReaderRaw", "mxj.NewMapsFromJsonFile", "mxj.NewMapsFromJsonFileRaw"}),
 		func(p *Prog, r *Report) {
 			ruleErr(p, r, concat(grpMapDecode, grpSeqDecode, grpJsonDecode, grpGob, grpBeautify), "decoders")
 		})
@@ -384,7 +392,7 @@ func init() {
 	register("C18",
 		"Structural necessary conditions of 'options have only their documented effect and can be restored', decided for every call history: OPT.writers (each package variable is stored only by init and its named setter: no hidden state survives a reset), OPT.setter (per setter and argument-count class {0,1,>=2}, every CFG path stores the documented value: toggle / explicit / unchanged; explicit stores do not depend on the old value), OPT.excl (encoder- and decoder-side escaping never both on at a setter exit), OPT.dead (every option is read by some non-setter), PAIR.derived (lenAttrPrefix and trimRunes are recomputed with their master variable), OPT.scope (API groups never load options documented not to affect them), INFL.castflag (cast options are read only under the cast flag). Not decided: behavioural equality with a fresh process; restorability of SetGlobalKeyMapPrefix for arbitrary prefix characters."+levelNote,
 		[]string{"option documentation transcribed in tables.go/rules_opt.go"},
-		ruleOptWriters, ruleOptSetter, ruleOptExcl, func(p *Prog, r *Report) { ruleOptDead(p, r, "mxj") }, rulePairDerived,
+		ruleOptWriters, ruleOptSetter, ruleSeqCastTag, ruleOptExcl, func(p *Prog, r *Report) { ruleOptDead(p, r, "mxj") }, rulePairDerived,
 		func(p *Prog, r *Report) { ruleOptScope(p, r) }, ruleInflCastFlag)
 
 	register("C19",
@@ -392,6 +400,7 @@ func init() {
 		nil,
 		ruleWrapConcat, ruleWrapFileLoop, ruleTableGob, ruleJsonEscape,
 		func(p *Prog, r *Report) { ruleJsonScanClosing(p, r, "mxj.getJson") },
+		func(p *Prog, r *Report) { ruleJsonScanEscape(p, r, "mxj.getJson") },
 		func(p *Prog, r *Report) {
 			ruleFwdNames(p, r, func(n string) bool { return hasPrefixAny(n, "mxj.Maps.", "mxj.NewMapsFrom") })
 		},
@@ -417,6 +426,7 @@ func init() {
 		func(p *Prog, r *Report) { ruleFwdIdentity(p, r, "j2x", "x2j") },
 		ruleOptWriters,
 		func(p *Prog, r *Report) { ruleScanComplete(p, r, p.PkgFuncs("x2jw")) },
+		func(p *Prog, r *Report) { ruleResultOwnArray(p, r, []string{"x2jw.valuesFromKeyPath"}) },
 		func(p *Prog, r *Report) { ruleInflCrumb(p, r, []string{"x2jw.hasKeyPath"}) },
 		func(p *Prog, r *Report) {
 			ruleWalkTotal(p, r, []walkerSpec{{"x2jw.hasKey", nil}, {"x2jw.hasKeyPath", nil}})
